@@ -2,21 +2,28 @@
 
    env <strategy>                         select HWLOC_CPUKINDS_RANKING (dflt = unset)          -> ok
    init <roothex>                         fresh topology with that root cpuset                  -> obs
+   initd <roothex>                        same, loaded with HWLOC_TOPOLOGY_FLAG_INCLUDE_DISALLOWED -> obs
+   allow <cs|NULL> <flags>                hwloc_topology_allow(topology, cs, NULL, flags)       -> rc=.. obs
    reg <cs|NULL> <forced> <flags> name=value ...   hwloc_cpukinds_register                      -> rc=.. stalehit=.. obs
    regskip <same args>                    not executed (stale-slot defect class)                -> skipped stalehit=..
    ireg <cs> <forced> <flags> name=value ...       hwloc_internal_cpukinds_register (no ranking) -> rc=.. stalehit=.. obs
    iregskip <same args>                   not executed (stale-slot defect class)                -> skipped stalehit=..
    restrict <sethex> | dup | xml | refresh                                                      -> rc=.. obs
+                                          (restrict: EINVAL iff the set misses the ALLOWED cpuset; kinds are cut by the
+                                           new ROOT cpuset, Hw.Attr.CpuKindsAllowed)
    by <cs|NULL> <flags> | nr <flags> | info <id> <flags>                                        -> r=..
 -/
-import Hw.Attr.CpuKinds
+import Hw.Attr.CpuKindsAllowed
 import Driver.Util
 namespace Driver.CpuKindsEng
 open Hw Hw.CpuKinds Driver
 
 structure DState where
   strat : Strategy := .dflt
-  st : State := {}
+  t : TState := {}
+
+def DState.st (d : DState) : State := d.t.st
+def DState.setSt (d : DState) (st : State) : DState := { d with t := { d.t with st := st } }
 
 def init : DState := {}
 
@@ -48,8 +55,10 @@ def b01 (b : Bool) : String := if b then "1" else "0"
 
 def stripZeros (l : List Bool) : List Bool := (l.reverse.dropWhile (· == false)).reverse
 
-def showObs (st : State) : String :=
+def showObs (t : TState) : String :=
+  let st := t.st
   "nr=" ++ toString st.kinds.length ++ " root=" ++ toHex st.root ++
+    " allowed=" ++ toHex t.allowed ++ " dis=" ++ b01 t.inclDis ++
     st.kinds.foldl (fun s k => s ++ showKind k) "" ++
     " ;; alloc=" ++ toString st.alloc ++ " stale=" ++
     ",".intercalate ((stripZeros st.stale).map b01)
@@ -59,15 +68,23 @@ def step (d : DState) (line : String) : DState × String :=
   match tokens line with
   | ["env", s] => ({ d with strat := parseStrategy s }, "ok")
   | ["init", r] => match parseHex r with
-      | some r => let st : State := { root := r }; ({ d with st := st }, showObs st)
+      | some r => let t := tinit r false; ({ d with t := t }, showObs t)
       | none => bad
+  | ["initd", r] => match parseHex r with
+      | some r => let t := tinit r true; ({ d with t := t }, showObs t)
+      | none => bad
+  | ["allow", cs, fl] => match parseCs cs, parseNat fl with
+      | some cs, some fl => let (t', e) := allow d.t cs fl
+                            ({ d with t := t' }, "rc=" ++ errStr e ++ " " ++ showObs t')
+      | _, _ => bad
   | "reg" :: cs :: f :: fl :: infos => match parseCs cs, parseInt f, parseNat fl, infos.mapM parseInfo with
       | some cs, some f, some fl, some infos =>
         let hit := match cs with
           | some c => fl == 0 && c != 0 && staleHit d.st c (if f < 0 then -1 else f) infos true
           | none => false
         let (st', e) := register d.strat d.st cs f infos fl
-        ({ d with st := st' }, "rc=" ++ errStr e ++ " stalehit=" ++ b01 hit ++ " " ++ showObs st')
+        let d' := d.setSt st'
+        (d', "rc=" ++ errStr e ++ " stalehit=" ++ b01 hit ++ " " ++ showObs d'.t)
       | _, _, _, _ => bad
   | "regskip" :: cs :: f :: fl :: infos => match parseCs cs, parseInt f, parseNat fl, infos.mapM parseInfo with
       | some (some c), some f, some fl, some infos =>
@@ -78,7 +95,8 @@ def step (d : DState) (line : String) : DState × String :=
       | some (some c), some f, some fl, some infos =>
         let hit := c != 0 && fl / 2 == 0 && staleHit d.st c f infos (fl % 2 == 1)
         let (st', e) := internalRegister d.st c f infos fl
-        ({ d with st := st' }, "rc=" ++ errStr e ++ " stalehit=" ++ b01 hit ++ " " ++ showObs st')
+        let d' := d.setSt st'
+        (d', "rc=" ++ errStr e ++ " stalehit=" ++ b01 hit ++ " " ++ showObs d'.t)
       | _, _, _, _ => bad
   | "iregskip" :: cs :: f :: fl :: infos => match parseCs cs, parseInt f, parseNat fl, infos.mapM parseInfo with
       | some (some c), some f, some fl, some infos =>
@@ -86,12 +104,12 @@ def step (d : DState) (line : String) : DState × String :=
         (d, "skipped stalehit=" ++ b01 hit)
       | _, _, _, _ => bad
   | ["restrict", s] => match parseHex s with
-      | some s => let (st', e) := restrict d.strat d.st s
-                  ({ d with st := st' }, "rc=" ++ errStr e ++ " " ++ showObs st')
+      | some s => let (t', e) := restrictT d.strat d.t s
+                  ({ d with t := t' }, "rc=" ++ errStr e ++ " " ++ showObs t')
       | none => bad
-  | ["dup"] => let st' := dup d.st; ({ d with st := st' }, "rc=ok " ++ showObs st')
-  | ["xml"] => let st' := xmlReload d.strat d.st; ({ d with st := st' }, "rc=ok " ++ showObs st')
-  | ["refresh"] => let st' := refresh d.strat d.st; ({ d with st := st' }, "rc=ok " ++ showObs st')
+  | ["dup"] => let d' := d.setSt (dup d.st); (d', "rc=ok " ++ showObs d'.t)
+  | ["xml"] => let d' := d.setSt (xmlReload d.strat d.st); (d', "rc=ok " ++ showObs d'.t)
+  | ["refresh"] => let d' := d.setSt (refresh d.strat d.st); (d', "rc=ok " ++ showObs d'.t)
   | ["by", cs, fl] => match parseCs cs, parseNat fl with
       | some cs, some fl => (d, "r=" ++ resStr (getByCpuset d.st cs fl))
       | _, _ => bad
